@@ -19,7 +19,6 @@ package routingtable
 //@   props C16 C13
 //@   flag termination
 //@   flag wired 2
-//@   requires #table: table != nil
 //@   ensures  #valid_ids: result == nil ==> forall k uint64 :: k in table ==> (k < r.config.PartitionCount && table[k] != nil)
 //@   ensures  #count: result == nil ==> r.config.PartitionCount == len(table)
 //@   loop 0 invariant #checked: forall k uint64 :: visited(k) ==> (k < r.config.PartitionCount && table[k] != nil)
